@@ -37,7 +37,8 @@ def main(argv=None) -> int:
         print(f"ANALYSIS-ERROR property={pid} anchor: {e}")
         return 2
     except Exception:
-        traceback.print_exc()
+        tb = traceback.format_exc().splitlines()
+        print("\n".join(tb[:6] + (["  ..."] if len(tb) > 26 else []) + tb[-20:]))
         print(f"ANALYSIS-ERROR property={pid} internal error (see traceback above)")
         return 2
 
